@@ -9,6 +9,7 @@
 #include <yaclib/async/make.hpp>
 #include <yaclib/async/wait.hpp>
 #include <yaclib/async/wait_for.hpp>
+#include <yaclib/async/wait_until.hpp>
 #include <yaclib/async/when_all.hpp>
 #include <yaclib/async/when_any.hpp>
 #include <yaclib/coro/await.hpp>
@@ -56,6 +57,85 @@ struct Inputs {
     }
   }
 };
+
+// the same inputs as FutureOn (a plain future that carries an executor)
+struct OnInputs {
+  std::vector<yaclib::FutureOn<int>> fs;
+  std::vector<yaclib::Promise<int>> ps;
+  explicit OnInputs(std::size_t n) {
+    fs.reserve(n);
+    ps.reserve(n);
+    for (std::size_t i = 0; i != n; ++i) {
+      auto [f, p] = yaclib::MakeContractOn<int>(yaclib::MakeInline());
+      fs.push_back(std::move(f));
+      ps.push_back(std::move(p));
+    }
+  }
+  void Fulfil() {
+    for (std::size_t i = 0; i != ps.size(); ++i) {
+      std::move(ps[i]).Set(static_cast<int>(i));
+    }
+  }
+};
+
+// every wait form over a range of complete futures
+template <typename In>
+void ReadyWaits(const char* elem, std::size_t n) {
+  using namespace std::chrono_literals;
+  const std::string e = elem;
+  In in{n};
+  in.Fulfil();
+  auto a0 = News();
+  yaclib::Wait(in.fs.begin(), in.fs.end());
+  Emit(("Wait(ready " + e + ")").c_str(), n, News() - a0, "zero");
+  a0 = News();
+  yaclib::Wait(in.fs.begin(), in.fs.size());
+  Emit(("Wait(ready " + e + ", begin,n)").c_str(), n, News() - a0, "zero");
+  a0 = News();
+  (void)yaclib::WaitFor(1ms, in.fs.begin(), in.fs.end());
+  Emit(("WaitFor(ready " + e + ")").c_str(), n, News() - a0, "zero");
+  a0 = News();
+  (void)yaclib::WaitUntil(std::chrono::steady_clock::now() + 1ms, in.fs.begin(), in.fs.end());
+  Emit(("WaitUntil(ready " + e + ")").c_str(), n, News() - a0, "zero");
+  if (n >= 3) {
+    a0 = News();
+    yaclib::Wait(in.fs[0], in.fs[1], in.fs[2]);
+    Emit(("Wait(ready " + e + ", f1,f2,f3)").c_str(), 3, News() - a0, "zero");
+    a0 = News();
+    (void)yaclib::WaitFor(1ms, in.fs[0], in.fs[1]);
+    Emit(("WaitFor(ready " + e + ", f1,f2)").c_str(), 2, News() - a0, "zero");
+  }
+  a0 = News();
+  yaclib::Wait(in.fs[0]);
+  Emit(("Wait(ready " + e + ", f)").c_str(), 1, News() - a0, "zero");
+}
+
+template <typename In>
+void PendingWait(const char* api, std::size_t n, bool timed) {
+  using namespace std::chrono_literals;
+  In in{n};
+  std::uint64_t in_wait = 0;
+  // the waiter blocks; a second fiber fulfils: allocations of the fiber machinery itself are excluded by measuring
+  // around the library call only (the producer fiber is created before the window)
+  yaclib::fault::Scheduler scheduler;
+  yaclib::fault::Scheduler::Set(&scheduler);
+  yaclib_std::thread root([&] {
+    yaclib_std::thread producer([&] {
+      in.Fulfil();
+    });
+    auto a0 = News();
+    if (timed) {
+      (void)yaclib::WaitFor(1s, in.fs.begin(), in.fs.end());
+    } else {
+      yaclib::Wait(in.fs.begin(), in.fs.end());
+    }
+    in_wait = News() - a0;
+    producer.join();
+  });
+  root.join();
+  yaclib::fault::Scheduler::Set(nullptr);
+  Emit(api, n, in_wait, "zero_fiber");
+}
 
 struct VoidInputs {
   std::vector<yaclib::Future<>> fs;
@@ -175,38 +255,13 @@ int AllocsMain(int argc, char** argv) {
       (void)std::move(out).Get();
       Emit("WhenAll<void>(begin,n)", n, News() - a0, "combinator");
     }
-    {
-      // waits on futures that are already complete, and on futures completed by another fiber
-      Inputs in{n};
-      in.Fulfil();
-      auto a0 = News();
-      yaclib::Wait(in.fs.begin(), in.fs.end());
-      Emit("Wait(ready)", n, News() - a0, "zero");
-      a0 = News();
-      (void)yaclib::WaitFor(1ms, in.fs.begin(), in.fs.end());
-      Emit("WaitFor(ready)", n, News() - a0, "zero");
-    }
-    {
-      Inputs in{n};
-      ManualExec e;
-      std::uint64_t in_wait = 0;
-      // the waiter blocks; a second fiber fulfils: allocations of the fiber machinery itself are excluded by measuring
-      // around the library call only and subtracting what the producer fiber's creation costs (made before the window)
-      yaclib::fault::Scheduler scheduler;
-      yaclib::fault::Scheduler::Set(&scheduler);
-      yaclib_std::thread root([&] {
-        yaclib_std::thread producer([&] {
-          in.Fulfil();
-        });
-        auto a0 = News();
-        yaclib::Wait(in.fs.begin(), in.fs.end());
-        in_wait = News() - a0;
-        producer.join();
-      });
-      root.join();
-      yaclib::fault::Scheduler::Set(nullptr);
-      Emit("Wait(pending)", n, in_wait, "zero_fiber");
-    }
+    // waits on futures that are already complete, and on futures completed by another fiber; Future and FutureOn elements
+    ReadyWaits<Inputs>("Future", n);
+    ReadyWaits<OnInputs>("FutureOn", n);
+    PendingWait<Inputs>("Wait(pending Future)", n, false);
+    PendingWait<OnInputs>("Wait(pending FutureOn)", n, false);
+    // (a timed wait that really blocks is not measured here: under the FIBER backend the scheduler's own sleep queue
+    // allocates a node for the sleeper, which is the fault layer's cost, not the library's)
     {
       Inputs in{n};
       g_await_allocs = 0;
